@@ -2,6 +2,7 @@ package props
 
 import (
 	"fmt"
+	"github.com/nspcc-dev/neo-go/pkg/core/transaction"
 	"math/big"
 	"strings"
 	"testing"
@@ -145,13 +146,25 @@ func TestC05Stateful(t *testing.T) {
 			preSnap := w.c.Snapshot()
 			pub := w.owners[b.owner].Account().PublicKey().Bytes()
 			var o *chainkit.Outcome
+			// one put in six carries the Alphabet's witness with scope CalledByEntry: valid in Container, not in Balance
+			// (which Container calls to move the fee). Such a put may be refused as a whole - what may not happen is a
+			// container stored without its fee
+			scoped := rapid.IntRange(0, 5).Draw(rt, "calledByEntry") == 0
+			if scoped {
+				w.c.NextScope = transaction.CalledByEntry
+				h.Mark("put-with-CalledByEntry-scope")
+			}
 			if b.name != "" {
 				o = w.c.Invoke(w.alpha, w.cnt, "putNamed", b.value, detBytes("sig", 64), pub, []byte{}, b.name, "")
 			} else {
 				o = w.c.Invoke(w.alpha, w.cnt, "put", b.value, detBytes("sig", 64), pub, []byte{})
 			}
-			h.Op("put %s repeated=%v balance=%v(%s) need=%v (fee %d alias %d N %d) -> %s", b.label, repeated, target, cls, need, fee, aliasFee, n, o)
+			h.Op("put %s repeated=%v calledByEntry=%v balance=%v(%s) need=%v (fee %d alias %d N %d) -> %s", b.label, repeated, scoped, target, cls, need, fee, aliasFee, n, o)
 			canPay := target.Cmp(need) >= 0
+			if scoped && canPay && !o.Halt {
+				canPay = false
+				h.Mark("scoped-put-refused")
+			}
 			if canPay != o.Halt {
 				fail("C05: put with balance %v and need %v: expected success=%v, got %s", target, need, canPay, o)
 			}
